@@ -558,6 +558,35 @@ def handleRekey (v : Variant) (env : Env) (i : GateIn) (old : Cert) (r : RekeyRe
   else if !r.csrSigOK then .badRequest
   else apiRenew v env i old (some r.csrKey) .mtls
 
+/-! ## 8a. The TLS layer in front of the handlers (ca/ca.go `getTLSConfig`, crypto/tls)
+
+  The CA's listener asks for a client certificate and verifies one *if given*
+  (`tls.VerifyClientCertIfGiven` against the CA's roots and intermediates, at the wall clock of
+  the handshake). A certificate that does not verify - wrong CA, not yet valid, expired - ends
+  the handshake: no request reaches a handler. -/
+
+/-- what the client shows in the handshake -/
+inductive Presented where
+  | nothing
+  | cert (chainOK notYetValid expired : Bool)
+  deriving DecidableEq, Repr
+
+/-- `none`: the handshake fails; `some b`: the request is served, `b` = a verified peer certificate
+    is attached to it -/
+def tlsHandshake : Presented → Option Bool
+  | .nothing => some false
+  | .cert chainOK nyv exp => if chainOK && !nyv && !exp then some true else none
+
+/-- `POST /1.0/renew` (and the unversioned `/renew`) as served by the CA process -/
+def serveRenew (v : Variant) (env : Env) (i : GateIn) (old : Cert) (p : Presented) (authorization : Str)
+    (tokenChecks : Str → Bool × Bool × Bool × Bool × Bool × Bool) : Option ApiResult :=
+  (tlsHandshake p).map fun peer => handleRenew v env i old ⟨peer, authorization⟩ tokenChecks
+
+/-- `POST /1.0/rekey` as served by the CA process -/
+def serveRekey (v : Variant) (env : Env) (i : GateIn) (old : Cert) (p : Presented)
+    (bodyParses csrPresent csrSigOK : Bool) (csrKey : Str) : Option ApiResult :=
+  (tlsHandshake p).map fun peer => handleRekey v env i old ⟨peer, bodyParses, csrPresent, csrSigOK, csrKey⟩
+
 /-! ## 8b. Where the renewal flags come from: configuration, migration, restart
 
   `provisioner.Claims` has pointer fields (nil = "not set here, use the authority-level claims");
@@ -687,6 +716,37 @@ def ctlRenewTypes : List String := ["ACME", "AWS", "Azure", "GCP", "JWK", "K8sSA
 /-- provisioner types that embed `*base` and define no `AuthorizeRenew` (`Stored.base`) -/
 def baseRenewTypes : List String := ["SCEP", "SSHPOP"]
 
+/-- `claimsToLinkedca`: which claim feeds which local and which local feeds which stored field
+    (the shape `claimsToLinkedca` of section 8b models: each flag travels on its own) -/
+def claimsToLinkedcaFlow : List String :=
+  ["c.DisableRenewal!=nil=>disableRenewal=*c.DisableRenewal",
+   "c.AllowRenewalAfterExpiry!=nil=>allowRenewalAfterExpiry=*c.AllowRenewalAfterExpiry",
+   "c.DisableSmallstepExtensions!=nil=>disableSmallstepExtensions=*c.DisableSmallstepExtensions",
+   "lit:DisableRenewal:disableRenewal", "lit:AllowRenewalAfterExpiry:allowRenewalAfterExpiry",
+   "lit:DisableSmallstepExtensions:disableSmallstepExtensions"]
+
+def claimsToCertificatesFlow : List String :=
+  ["DisableRenewal:&c.DisableRenewal", "AllowRenewalAfterExpiry:&c.AllowRenewalAfterExpiry",
+   "DisableSmallstepExtensions:&c.DisableSmallstepExtensions"]
+
+/-- every provisioner type's case of `ProvisionerToLinkedca` passes its claims through
+    `claimsToLinkedca` (so the model's conversion has no type parameter) -/
+def typesConvertedToLinkedca : List String :=
+  ["ACME", "AWS", "Azure", "GCP", "JWK", "K8sSA", "Nebula", "OIDC", "SCEP", "SSHPOP", "X5C"]
+
+/-- `ProvisionerToCertificates` converts once, in front of the type switch, and every case uses it -/
+def typesConvertedToCertificates : List String :=
+  ["first:claims,err:=claimsToCertificates(p.Claims)",
+   "ACME", "AWS", "Azure", "GCP", "JWK", "K8sSA", "Nebula", "OIDC", "SCEP", "SSHPOP", "X5C"]
+
+/-- the routes that reach the renew / rekey handlers -/
+def renewRoutes : List String :=
+  ["\"POST\"\"/renew\"->Renew", "\"POST\"\"/rekey\"->Rekey", "\"POST\"\"/re-sign\"->Renew"]
+
+/-- the listener's client-certificate policy (`tlsHandshake` of section 8a) -/
+def tlsClientAuth : List String :=
+  ["serverTLSConfig.ClientAuth=tls.VerifyClientCertIfGiven", "serverTLSConfig.ClientCAs=certPool"]
+
 /-- name ↦ table, as the extractor renders it -/
 def factTable : String → Option (List String)
   | "renewTemplateFields" => some renewTemplateFields
@@ -707,6 +767,12 @@ def factTable : String → Option (List String)
   | "rekeyHandlerArgs" => some ["r.TLS.PeerCertificates[0]", "body.CsrPEM.CertificateRequest.PublicKey"]
   | "renewHandlerArgs" => some ["ctx", "cert", "nil"]
   | "peerCertificateSources" => some ["r.TLS!=nil&&len(r.TLS.PeerCertificates)>0", "s!=\"\"", "len(parts)==2"]
+  | "claimsToLinkedcaFlow" => some claimsToLinkedcaFlow
+  | "claimsToCertificatesFlow" => some claimsToCertificatesFlow
+  | "typesConvertedToLinkedca" => some typesConvertedToLinkedca
+  | "typesConvertedToCertificates" => some typesConvertedToCertificates
+  | "renewRoutes" => some renewRoutes
+  | "tlsClientAuth" => some tlsClientAuth
   | "goGeneratedOrder" => some (generatedOrder.map dotted)
   | "goExtraAppended" => some ["append(ret[:n],template.ExtraExtensions...)"]
   | _ => none
